@@ -289,6 +289,8 @@ func c19(r *Report) {
 	})
 
 	r.Guard("C19.R3", "lengths taken from the wire are bounded before they are added or used as sizes", func() {
+		errorsReturnedRule(r, r.W.Fn("marbl", "Reader.ReadFrame"), false)
+
 		isLen := func(v ssa.Value) bool { return isCallValue(v, "(encoding/binary.bigEndian).Uint32") }
 		// (a) no uint32 addition of two wire lengths
 		okAdd := true
@@ -422,6 +424,40 @@ func c19(r *Report) {
 	})
 
 	r.Guard("C19.R4", "writer and reader agree on the frame layout", func() {
+		// every frame of a message carries the message's own type: whatever LogRequest
+		// sends is typed Request, whatever LogResponse sends (pseudo-headers, :api, headers,
+		// the body wrapper) is typed Response
+		for _, side := range []struct {
+			fn   string
+			want int64
+		}{{"Stream.LogRequest", 1}, {"Stream.LogResponse", 2}} {
+			f := r.W.Fn("marbl", side.fn)
+			if f == nil {
+				r.Undecided("(*M/marbl.Stream)."+side.fn, "UNRESOLVED")
+				continue
+			}
+			r.Touch(f)
+			bad := ""
+			n := 0
+			for _, c := range plainCalls(f, "(*M/marbl.Stream).sendHeader", "(*M/marbl.Stream).sendData") {
+				n++
+				for _, l := range resolveAll(c.Call.Args[2]) {
+					if k, isK := constInt(l); !isK || k != side.want {
+						bad = site(f, c)
+					}
+				}
+			}
+			for _, a := range allocsOf(f, P("marbl")+".bodyLogger") {
+				for _, st := range litFieldStores(a)["mt"] {
+					n++
+					if k, isK := constInt(st.Val); !isK || k != side.want {
+						bad = "the body wrapper"
+					}
+				}
+			}
+			r.Decide("table", fmt.Sprintf("(*M/marbl.Stream).%s: every frame it emits has the message's type", strings.TrimPrefix(side.fn, "Stream.")), bad == "" && n > 0, fmt.Sprintf("%d frame sources, all typed %d", n, side.want), "a frame of this message is emitted with the other message type ("+bad+"): the reader files it under the wrong message of the exchange", f.Pos())
+		}
+
 		var makes []int64
 		for _, in := range instrs(rf) {
 			if mk, y := in.(*ssa.MakeSlice); y {
